@@ -4,6 +4,7 @@ package main
 //
 //	close@k   the k-th close of a file opened for writing fails after losing half of the data (quota / NFS style)
 //	write@k   the k-th write request fails
+//	list@k    the k-th directory listing is refused (permission denied)
 //
 // Every delivered fault appends a line to SHIM_SFTP_FAULT_LOG.
 
@@ -23,6 +24,7 @@ type faultyFS struct {
 	k      int64
 	closes int64
 	writes int64
+	lists  int64
 	log    string
 }
 
@@ -120,6 +122,10 @@ func (l listAt) ListAt(out []os.FileInfo, off int64) (int, error) {
 func (h *faultyFS) Filelist(r *sftp.Request) (sftp.ListerAt, error) {
 	switch r.Method {
 	case "List":
+		if n := atomic.AddInt64(&h.lists, 1); h.kind == "list" && n == h.k {
+			h.delivered(fmt.Sprintf("list#%d %s", n, r.Filepath))
+			return nil, sftp.ErrSSHFxPermissionDenied
+		}
 		es, err := os.ReadDir(r.Filepath)
 		if err != nil {
 			return nil, err
